@@ -174,6 +174,8 @@ impl HyraxPC {
         rng is Some ==> rng->Some_0.present@,
     ensures
         res is Ok ==> (forall|i: int| 0 <= i < polynomials@.len() ==> hyrax_admissible(ck, (#[trigger] polynomials@[i]))),   // name=hyrax.commit.odd_or_too_many_variables_refused props=C17
+        // ... and nothing else is: in-domain requests are answered
+        res is Err ==> (exists|i: int| 0 <= i < polynomials@.len() && !hyrax_admissible(ck, #[trigger] polynomials@[i])),   // name=hyrax.commit.only_inadmissible_requests_are_refused props=C17
         res is Ok ==> res->Ok_0.0@.len() == polynomials@.len() && res->Ok_0.1@.len() == polynomials@.len(),   // name=hyrax.commit.one_commitment_and_state_per_polynomial props=C19
         // every row commitment = Pedersen commitment to the row + h * (a fresh draw from the CALLER's generator)
         res is Ok ==> (forall|i: int| 0 <= i < polynomials@.len() ==> hyrax_commit_one(ck, (#[trigger] polynomials@[i]), &res->Ok_0.0@[i], &res->Ok_0.1@[i],
